@@ -311,12 +311,8 @@ fn from_str_with_options_impl<'de, T>(input: &'de str, options: Options) -> Resu
 where
     T: serde::de::Deserialize<'de>,
 {
-    // Normalize: ignore a single leading UTF-8 BOM if present.
-    let input = if let Some(rest) = input.strip_prefix('\u{FEFF}') {
-        rest
-    } else {
-        input
-    };
+    // A single leading UTF-8 BOM is ignored: `LiveEvents::from_str` strips it (exactly once, as the
+    // decoder does for reader input) and the snippet renderer aligns its coordinates the same way.
 
     let with_snippet = options.with_snippet;
     let crop_radius = options.crop_radius;
@@ -417,12 +413,8 @@ fn from_str_with_options_and_path_recorder<T: DeserializeOwned>(
     input: &str,
     options: Options,
 ) -> Result<(T, crate::path_map::PathRecorder), Error> {
-    // Normalize: ignore a single leading UTF-8 BOM if present.
-    let input = if let Some(rest) = input.strip_prefix('\u{FEFF}') {
-        rest
-    } else {
-        input
-    };
+    // A single leading UTF-8 BOM is ignored: `LiveEvents::from_str` strips it (exactly once, as the
+    // decoder does for reader input) and the snippet renderer aligns its coordinates the same way.
 
     let with_snippet = options.with_snippet;
     let crop_radius = options.crop_radius;
@@ -1441,12 +1433,8 @@ pub fn from_multiple_with_options<T: DeserializeOwned>(
     input: &str,
     options: Options,
 ) -> Result<Vec<T>, Error> {
-    // Normalize: ignore a single leading UTF-8 BOM if present.
-    let input = if let Some(rest) = input.strip_prefix('\u{FEFF}') {
-        rest
-    } else {
-        input
-    };
+    // A single leading UTF-8 BOM is ignored: `LiveEvents::from_str` strips it (exactly once, as the
+    // decoder does for reader input) and the snippet renderer aligns its coordinates the same way.
     let with_snippet = options.with_snippet;
     let crop_radius = options.crop_radius;
 
